@@ -326,7 +326,10 @@ class _ScopeContext:
         """See `walk_funcdef()`. Exclude defaults and kw_defaults from walk, ast is top-level scope arguments."""
 
         if ast is not self.scope_args:
-            return False
+            if ast.f.parent is not self.walk_root:
+                return False
+
+            self.scope_args = ast  # top-level arguments node was replaced while yielded
 
         if self.back:
             stack.extend(ast.posonlyargs)
